@@ -30,7 +30,7 @@ def tasks(tier, seed):
     ts = [Task('size_arithmetic', MOD, 'task_size_arithmetic', (), fuc=['segno.utils.get_symbol_size', 'segno.utils.get_border',
                                                                          'segno.utils.get_default_border_size', 'segno.utils.check_valid_scale',
                                                                          'segno.utils.check_valid_border', 'segno.writers._valid_width_height_and_border'])]
-    n = 3 if tier == 'quick' else 40
+    n = 8 if tier == 'quick' else 40
     for k in range(16):
         ts.append(Task('bounded_raster[%d]' % k, MOD, 'task_bounded_raster', (seed, k, n), backend='bounded',
                        fuc=['segno.writers.write_png', 'segno.writers.write_pbm', 'segno.writers.write_pam', 'segno.writers.write_ppm',
